@@ -121,8 +121,10 @@ class World:
         ref = self.fresh(w, path)
         if self.fields(got) != self.fields(ref):
             raise Mismatch("purity", "%s: node at %s/%s differs from the stateless recomputation" % (what, w, path_str(path)))
-        if str(got) != path_str(path, "m" if w == "full" else "M") and w == "full":
-            raise Mismatch("purity", "%s: str(node) = %r for path %s" % (what, str(got), path_str(path)))
+        # how a node prints itself is the library's business; that it prints the same as a freshly derived node
+        # at the same path is purity
+        if w == "full" and str(got) != str(ref):
+            raise Mismatch("purity", "%s: str(node) = %r for path %s (a fresh derivation prints %r)" % (what, str(got), path_str(path), str(ref)))
 
     def emit(self, w, s):
         if isinstance(s, str):
